@@ -794,12 +794,12 @@ def judge_e2e(client, res: Resource, hdr):
     return o, judge(hdr, res.length, obs_e2e(o, res), res.mandatory)
 
 
-def e2e_failure(client, res, hdr, why, o, shrink=True):
+def e2e_failure(client, res, hdr, why, o, shrink=True, clock=None):
     mini = shrink_header(hdr, lambda h: (judge_e2e(client, res, h)[1] is not None), budget=120) if shrink else hdr
     o2, w2 = judge_e2e(client, res, mini)
     if w2 is None:
         mini, o2, w2 = hdr, o, why
-    return {"kind": "e2e", "url": res.url, "header": hdr_json(mini), "clock": CLOCK0, "length": res.length,
+    return {"kind": "e2e", "url": res.url, "header": hdr_json(mini), "clock": clock or CLOCK0, "length": res.length,
             "what": w2, "observed": {"status": o2["status"], "content_range": o2["cr"],
                                      "content_length": o2["clen"], "body_len": len(o2["body"])}}
 
@@ -810,7 +810,7 @@ def e2e_headers(ctx, res: Resource, rng):
     if ctx.thorough or n < 5000:
         hs += boundary_headers(n)
     else:   # quick: all open/suffix forms, a seeded third of the pairs
-        hs += boundary_headers(n, pairs=lambda pr: [p for p in pr if rng.random() < .34])
+        hs += boundary_headers(n, pairs=lambda pr: [p for p in pr if rng.random() < .25])
     vs = boundary_values(n)
     for w in VARIANT_WRAPS:
         hs.append(w(rng.choice(vs), rng.choice(vs + [""])))
@@ -821,6 +821,107 @@ def e2e_headers(ctx, res: Resource, rng):
         hs += latin1_sweep()[:: (1 if ctx.thorough else 9)]
     return hs
 
+
+# ---- live resources: clock x start-kind dimension -------------------------------------------
+
+BOUNDARY_CLOCKS = [
+    ("new-year-00:00:00", "2024-01-01T00:00:00Z"), ("new-year-first-minute", "2024-01-01T00:00:30Z"),
+    ("jan-1-daytime", "2024-01-01T10:15:07Z"), ("dec-31-23:59:59", "2023-12-31T23:59:59Z"),
+    ("feb-29", "2024-02-29T12:00:00Z"), ("mar-1-after-leap-day", "2024-03-01T00:00:10Z"),
+    ("mar-1-non-leap", "2023-03-01T05:00:00Z"), ("first-of-month", "2024-07-01T00:30:00Z"),
+    ("first-minute-of-day", "2024-05-17T00:00:20Z"), ("ordinary", "2024-05-17T13:45:31Z"),
+]
+START_KINDS = ["epoch", "year", "month", "today", "now", "explicit", "explicit-offset", "explicit-just-started"]
+SMALL_HEADERS = [None, "bytes=0-99", "bytes=20-79", "bytes=0-", "bytes=-1", "bytes=-99999999", "bytes=5-99999999",
+                 "bytes=99999999-", "bytes=7-5", "bytes=-0", "Bytes= 3 - 9 ", "bytes=a-b", "bytes=0-1,4-5"]
+
+
+def _utc(iso):
+    import datetime
+    return datetime.datetime.strptime(iso, "%Y-%m-%dT%H:%M:%SZ").replace(tzinfo=datetime.timezone.utc)
+
+
+def start_candidates(kind, now):
+    """(query value, [candidate availabilityStartTime ...]) from the documented meaning of the start
+    keywords – only used to guess which segment numbers could be available; a wrong guess costs a
+    404, never a verdict"""
+    import datetime
+    day = datetime.timedelta(days=1)
+    midnight = now.replace(hour=0, minute=0, second=0, microsecond=0)
+    if kind == "epoch":
+        return "epoch", [datetime.datetime(1970, 1, 1, tzinfo=datetime.timezone.utc)]
+    if kind == "today":
+        return "today", [midnight, midnight - day]
+    if kind == "month":
+        m = midnight.replace(day=1)
+        return "month", [m, m - day]
+    if kind == "year":
+        y = midnight.replace(month=1, day=1)
+        return "year", [y, y - day]
+    if kind == "now":
+        from dashlive.mpeg.dash.timing import DashTiming
+        return "now", [now - datetime.timedelta(seconds=DashTiming.DEFAULT_TIMESHIFT_BUFFER_DEPTH), now - day]
+    if kind == "explicit":
+        t = now - datetime.timedelta(hours=3, minutes=11, seconds=4)
+        return t.strftime("%Y-%m-%dT%H:%M:%SZ"), [t]
+    if kind == "explicit-offset":
+        t = now - datetime.timedelta(days=2, seconds=1)
+        local = t + datetime.timedelta(hours=5, minutes=30)
+        return local.strftime("%Y-%m-%dT%H:%M:%S") + "%2B05:30", [t]
+    t = now - datetime.timedelta(seconds=23)          # the first seconds of a stream's life
+    return t.strftime("%Y-%m-%dT%H:%M:%SZ"), [t, t - day]
+
+
+def live_clock_resources(ctx, app, client, clk, ch: Channel, rng):
+    """one live media-segment URL per (clock, start kind): clocks at calendar boundaries plus ordinary
+    and seeded ones.  Yields (Resource, clock iso) with the clock left set for the caller.  Any 5xx
+    met while looking for an available segment is itself a failure of the property (absent header
+    must give the full body, never a 5xx)."""
+    import datetime
+    media = []
+    with app.ctx() as models:
+        for name, ext in (("bbb_t1", "mp4"), ("bbb_a1", "m4a"), ("bbb_v7", "m4v")):
+            rep = models.MediaFile.get(name=name).representation
+            media.append((name, ext, rep.segment_duration, rep.timescale))
+    clocks = list(BOUNDARY_CLOCKS)
+    for _ in range(ctx.scale(2, 8)):
+        t = datetime.datetime(2021, 1, 1, tzinfo=datetime.timezone.utc) + datetime.timedelta(
+            seconds=rng.randrange(0, 17 * 365 * 86400))
+        clocks.append(("seeded", t.strftime("%Y-%m-%dT%H:%M:%SZ")))
+    i = 0
+    for label, iso in clocks:
+        now = _utc(iso)
+        clk.set(iso)
+        for kind in START_KINDS:
+            name, ext, segdur, ts = media[i % 3] if ctx.thorough else media[(0, 0, 1)[i % 3]]
+            i += 1
+            qv, asts = start_candidates(kind, now)
+            found = None
+            tried = 0
+            for ast in asts:
+                n = int((now - ast).total_seconds() * ts // segdur)
+                for k in (n - 2, n - 4, n - 1):
+                    if k < 1 or found:
+                        continue
+                    u = f"/dash/live/bbb/{name}/{k}.{ext}?start={qv}"
+                    r = client.get(u)
+                    tried += 1
+                    if r.status_code >= 500:
+                        ch.evaluations += 1
+                        _record(ch.oracle_failures, ch, "oracle_failures",
+                                {"kind": "e2e", "url": u, "header": None, "clock": iso, "length": None,
+                                 "what": f"status {r.status_code} (5xx) for a media segment request without a Range header",
+                                 "observed": {"status": r.status_code, "content_range": None,
+                                              "content_length": r.headers.get("Content-Length"),
+                                              "body_len": len(r.data)}})
+                    elif r.status_code == 200:
+                        found = Resource("seg", u, r.data, False, tag=f"live:start={kind}", light=True)
+            ch.count(f"live-clock:{label}")
+            if found is None:
+                ch.count(f"live-unavailable:start={kind}")
+                continue
+            ch.count(f"live-start:{kind}")
+            yield found, iso, label
 
 def header_region_headers(rng, n, extra=3):
     """ranges over the first bytes of a segment (styp/sidx/moof: mfhd sequence number, tfdt decode
@@ -998,12 +1099,58 @@ def seq_failure(client, url, hdr, history, why, o, shrink=True):
                          "body_len": len(o["body"])}}
 
 
+def run_resource(ctx, client, ch: Channel, res: Resource, hs, clock):
+    """all headers of `hs` on one resource at the current clock: model comparison + oracle"""
+    ch.count(f"route/options:{res.tag}", len(hs))
+    if res.altered:
+        ch.count("resources-whose-body-is-altered-by-options")
+    lines, idx = [], []
+    for i, h in enumerate(hs):
+        if in_model_domain(h) and res.kind != "init":
+            lines.append(f"rangeresp {res.kind} {LIM} {res.length} {enc_hdr(h)}")
+            idx.append(i)
+    try:
+        model = dict(zip(idx, run_model(lines)))
+    except Exception as e:
+        ch.errors.append(f"driver: {e}")
+        model = {}
+    for i, h in enumerate(hs):
+        o, why = judge_e2e(client, res, h)
+        if o is None:
+            ch.count("undeliverable(CR/LF)")
+            continue
+        ch.evaluations += 1
+        ch.count(f"{res.kind}:status:{o['status']}")
+        ch.count(f"class:{classify(h)[0]}")
+        if not res.tag.startswith("live:"):
+            ch.count(f"resource:{res.url}")
+        if why is not None:
+            _record(ch.oracle_failures, ch, "oracle_failures",
+                    lambda: e2e_failure(client, res, h, why, o, shrink=len(ch.oracle_failures) < MAX_SHRUNK,
+                                        clock=clock))
+        if i in model:
+            impl = canon_e2e(o, res, model[i])
+            if impl != model[i]:
+                _record(ch.disagreements, ch, "disagreements",
+                        {"kind": "e2e", "url": res.url, "header": hdr_json(h), "clock": clock,
+                         "model": model[i], "impl": impl})
+            if o["status"] in (206, 416):
+                ch.nontrivial.add((res.url, h))
+        elif res.kind == "init":
+            ch.count("init-segment(oracle only)")
+        else:
+            ch.count("outside-model-domain(oracle only)")
+        if o["status"] == 206 and classify(h)[0] != "other":
+            ch.sample({"url": res.url, "header": h, "status": 206, "content_range": o["cr"],
+                       "content_length": o["clen"]}, limit=4)
+
+
 def run_e2e(ctx, ch: Channel):
     import appboot
     app = appboot.get_app(("bbb", "tears"))
     client = app.client()
     rng = ctx.rng("e2e")
-    with appboot.Clock(CLOCK0):
+    with appboot.Clock(CLOCK0) as clk:
         resources = e2e_resources(ctx, app, client)
         if len(resources) < 5:
             ch.errors.append(f"only {len(resources)} range-capable fixture URLs answered 200")
@@ -1020,46 +1167,23 @@ def run_e2e(ctx, ch: Channel):
                     if mf is None or mf.blob.size != res.length:
                         ch.errors.append(f"blob.size of {name} differs from the stored file")
             hs = compact_headers(ctx, res, rng) if res.light else e2e_headers(ctx, res, rng)
-            ch.count(f"route/options:{res.tag}", len(hs))
-            if res.altered:
-                ch.count("resources-whose-body-is-altered-by-options")
-            lines, idx = [], []
-            for i, h in enumerate(hs):
-                if in_model_domain(h) and res.kind != "init":
-                    lines.append(f"rangeresp {res.kind} {LIM} {res.length} {enc_hdr(h)}")
-                    idx.append(i)
-            try:
-                model = dict(zip(idx, run_model(lines)))
-            except Exception as e:
-                ch.errors.append(f"driver: {e}")
-                model = {}
-            for i, h in enumerate(hs):
-                o, why = judge_e2e(client, res, h)
-                if o is None:
-                    ch.count("undeliverable(CR/LF)")
-                    continue
-                ch.evaluations += 1
-                ch.count(f"{res.kind}:status:{o['status']}")
-                ch.count(f"class:{classify(h)[0]}")
-                ch.count(f"resource:{res.url}")
-                if why is not None:
-                    _record(ch.oracle_failures, ch, "oracle_failures",
-                            lambda: e2e_failure(client, res, h, why, o, shrink=len(ch.oracle_failures) < MAX_SHRUNK))
-                if i in model:
-                    impl = canon_e2e(o, res, model[i])
-                    if impl != model[i]:
-                        _record(ch.disagreements, ch, "disagreements",
-                                {"kind": "e2e", "url": res.url, "header": hdr_json(h), "clock": CLOCK0,
-                                 "model": model[i], "impl": impl})
-                    if o["status"] in (206, 416):
-                        ch.nontrivial.add((res.url, h))
-                elif res.kind == "init":
-                    ch.count("init-segment(oracle only)")
-                else:
-                    ch.count("outside-model-domain(oracle only)")
-                if o["status"] == 206 and classify(h)[0] != "other":
-                    ch.sample({"url": res.url, "header": h, "status": 206, "content_range": o["cr"],
-                               "content_length": o["clen"]}, limit=4)
+            run_resource(ctx, client, ch, res, hs, CLOCK0)
+        # live URLs over clocks at calendar boundaries x start kinds: a small header set on every
+        # pair, the compact (thorough: full) header set on a seeded sample
+        lrng = ctx.rng("e2e-live-clocks")
+        pairs = 0
+        for res, iso, label in live_clock_resources(ctx, app, client, clk, ch, lrng):
+            pairs += 1
+            if ctx.thorough:
+                hs = e2e_headers(ctx, res, lrng) if lrng.random() < .15 else compact_headers(ctx, res, lrng)
+            elif lrng.random() < .06:
+                hs = compact_headers(ctx, res, lrng)
+            else:
+                hs = SMALL_HEADERS + header_region_headers(lrng, res.length, extra=1)[-1:]
+            run_resource(ctx, client, ch, res, hs, iso)
+        clk.set(CLOCK0)
+        if pairs < len(BOUNDARY_CLOCKS) * 4:
+            ch.errors.append(f"only {pairs} (clock, start kind) pairs gave an available live segment")
         groups = sibling_groups(ctx, app, client, ch)
         if sum(1 for t, _ in groups if t != "option-vectors") < 2:
             ch.errors.append(f"fewer than 2 groups of URLs sharing a stored fragment could be built ({groups})")
@@ -1153,6 +1277,9 @@ def run_case(case):
                 if url.startswith("/mps/"):
                     _ensure_mps(app)
                 r = client.get(url)
+                if r.status_code >= 500:
+                    return True, {"what": f"status {r.status_code} (5xx) for the request without a Range header",
+                                  "status": r.status_code}
                 if r.status_code != 200:
                     return False, {"note": f"un-ranged GET of {url} answered {r.status_code}"}
                 res = Resource("init" if "/init." in url else "seg", url, r.data, False)
